@@ -11,7 +11,7 @@ MODULES = ["vf.contracts.c_heralding", "vf.contracts.c_state", "vf.contracts.c_b
 def units(tier):
     u = pyvc_units("C03", MODULES)
     u.append(dict(kind="func", mechanism="lemmas (D: z3)", name="lemmas:z3", module="vf.lemmas.z3lemmas", func="unit"))
-    for l in [x for x in circuit_labels(tier) if x != 'tiny']:
+    for l in circuit_labels(tier):   # incl. 'tiny' (matrix elements of modulus 1e-5: the simulator has no truncation threshold)
         u.append(dict(kind="xlift", mechanism="xlift bounded (C), exact", name=f"xlift:simulator[{l}]", module="vf.tasks.t_fock", func="unit", args=dict(which="simulator", label=l)))
     u.append(dict(kind="func", mechanism="bounded runtime contract (C), native machine integers", name="bounded:large-occupations", module="vf.tasks.t_fock", func="unit_bigint", args={}))
     u.append(dict(kind="func", mechanism="bounded runtime contract (C)", name="bounded:simulator-histories", module="vf.tasks.t_history", func="unit", args=dict(kind="simulator")))
